@@ -163,7 +163,7 @@ def plan(tier, seed):
 
 
 def mandatory(tier):
-    return [f"subject/{s.split('/')[0]}" for s in SUBJECTS] + ["programs", "special/copy", "special/deepcopy", "special/pickle", "special/grids/mixed_flags", "special/grids/shared", "typed_results", "plain_results"]
+    return [f"subject/{s.split('/')[0]}" for s in SUBJECTS] + ["programs", "special/copy", "special/deepcopy", "special/pickle", "special/grids/mixed_flags", "special/grids/shared", "special/grids/fractional", "typed_results", "plain_results"]
 
 
 def make_subject(kind, D=2, variant="distinct"):
@@ -180,6 +180,10 @@ def make_subject(kind, D=2, variant="distinct"):
         grids = [Grid(shape=shape, origin=tuple([10.0] + [0.0] * (D - 1)), spacing=tuple([1.5] * D), align_corners=bool(i % 2)) for i in range(N)]
     elif variant == "shared":
         grids = [grids[0]] * N
+    elif variant == "fractional":  # pyramid-level grids keep a fractional internal size (2.5, reported 3): part of the grid's state
+        big = tuple(2 * n - 1 for n in shape)
+        grids = [Grid(shape=big, origin=tuple([10.0 * (i + 1)] + [0.0] * (D - 1)), spacing=tuple([1.0 + 0.5 * i] * D)).downsample(1) for i in range(N)]
+        assert all(tuple(g.shape) == tuple(shape) for g in grids)
     data = torch.stack([torch.full((C,) + shape, float(i)) + 0.01 * torch.arange(C).reshape((C,) + (1,) * D) for i in range(N)])
     carrier = torch.stack([torch.full((C,) + shape, float(2**i)) for i in range(N)])
     if kind == "ImageBatch":
@@ -279,7 +283,7 @@ def single(ctx, kind, name):
     ctx.nontriv(kind, name)
     info = dict(op=name, subject=kind)
     if name in SPECIAL:
-      for variant in (("distinct", "mixed_flags", "shared") if batched else ("distinct",)):
+      for variant in (("distinct", "mixed_flags", "shared", "fractional") if batched else ("distinct",)):
         if variant != "distinct":
             x, car, grids, axes = make_subject(kind, D=2, variant=variant)
             info = dict(op=name, subject=kind, grids=variant)
@@ -296,7 +300,7 @@ def single(ctx, kind, name):
             ctx.true("copy_preserves_data", tuple(y.shape) == tuple(x.shape) and bool((y.as_subclass(torch.Tensor) == x.as_subclass(torch.Tensor)).all()), key=f"{name}/data", **info)
             g0 = list(x.grids()) if batched else [x.grid()]
             g1 = (list(y.grids()) if batched else [y.grid()]) if hasattr(y, "grid") else []
-            same = len(g0) == len(g1) and all(a == b and float((a.origin() - b.origin()).abs().max()) == 0 and a.align_corners() == b.align_corners() for a, b in zip(g0, g1))
+            same = len(g0) == len(g1) and all(a == b and float((a.origin() - b.origin()).abs().max()) == 0 and a.align_corners() == b.align_corners() and bool((a._size == b._size).all()) for a, b in zip(g0, g1))
             ctx.true("copy_preserves_grids", same, key=f"{name}/grids", n=len(g1), **info)
             if axes is not None:
                 ctx.true("copy_preserves_axes", getattr(y, "axes", lambda: None)() is axes, key=f"{name}/axes", **info)
